@@ -8,4 +8,4 @@ D=$(mktemp -d /tmp/exo-mut-XXXXXX)
 trap 'rm -rf "$D"' EXIT
 mkdir -p "$D/src" && rsync -a --exclude __pycache__ /repo/src/ "$D/src/"
 PATCH=$(readlink -f "$PATCH"); (cd "$D" && patch -s -p1 < "$PATCH")
-PYTHONPATH="$D/src" "$@"
+VERIF_EVIDENCE_DIR="${VERIF_EVIDENCE_DIR:-/tmp/mutant-evidence}" PYTHONPATH="$D/src" "$@"
